@@ -144,6 +144,33 @@ let rec cst (tk : string array) (pos : int ref) : cval =
     CObj (w0, List.rev !l)
   | _ -> raise Bad
 
+(* the two transliterations of Digit::stringToNumber (JsonModel.scan_number, DigitModel.string_to_number) must
+   agree on every numeral of a generated document: kind, consumed length, integer value *)
+let scanners_agree (txt : n list) : bool =
+  let len l = List.length l in
+  match scan_number txt, string_to_number txt with
+  | JOk r, Ok0 p ->
+    let consumed rest = n_of_int (len txt - len rest) in
+    (match r with
+     | NumNaN -> p.p_kind = qn_nan
+     | NumNat (x, rest) -> p.p_kind = qn_natural && p.p_bits = x && p.p_off = consumed rest
+     | NumInt (z, rest) ->
+       p.p_kind = qn_integer && p.p_off = consumed rest &&
+       (match z with
+        | Zneg q -> N.add p.p_bits (Npos q) = n_of_string "18446744073709551616"
+        | _ -> false)
+     | NumReal rest -> p.p_kind = qn_real && p.p_off = consumed rest)
+  | _, _ -> false
+
+let rec cst_numerals (c : cval) : n list list =
+  match c with
+  | CNatD ds -> [ds]
+  | CNegD ds -> [n_of_int 45 :: ds]
+  | CRealT t -> [t]
+  | CArr (_, items) -> List.concat_map (fun ((_, x), _) -> cst_numerals x) items
+  | CObj (_, ms) -> List.concat_map (fun (((((_, _), _), _), x), _) -> cst_numerals x) ms
+  | _ -> []
+
 let split_semis (s : string) : string array = Array.of_list (String.split_on_char ';' s)
 
 let comp_json line =
@@ -175,7 +202,8 @@ let comp_json line =
       let body = List.rev (strip (List.rev (strip units))) in
       let spec_ok = cval_wf w c && is_container c && (cprint w c = body) in
       let expect = dump (cdenote w c) in
-      if not spec_ok then "SPEC-INCONSISTENT:generated-tree-is-not-wf-or-prints-differently 1"
+      if not (List.for_all scanners_agree (cst_numerals c)) then "SCANNER-MODELS-DISAGREE:JsonModel.scan_number-vs-DigitModel.string_to_number 1"
+      else if not spec_ok then "SPEC-INCONSISTENT:generated-tree-is-not-wf-or-prints-differently 1"
       else m ^ " " ^ fmt_bool (impl = expect)
     | [kind; w; term; impl] when kind = "S" || kind = "R" ->
       let w = n_of_string w in
